@@ -345,7 +345,11 @@ def replay(drv, root, item, reps=1):
             try:
                 p = subprocess.run([drv, os.path.join(d, "log")] + paths, cwd=d, env=env, stdout=subprocess.DEVNULL,
                                    stderr=subprocess.PIPE, timeout=120)
-                rc, err = p.returncode, p.stderr.decode("latin1")[-800:]
+                full = p.stderr.decode("latin1")
+                rc, err = p.returncode, full[-800:]
+                k0 = full.find("WARNING: ThreadSanitizer: data race")
+                if k0 >= 0:
+                    res["tsan"] = full[k0:k0 + 5000]
             except subprocess.TimeoutExpired:
                 rc, err = None, "timeout"
             res["files"]["stderr.txt"] = err
@@ -539,6 +543,31 @@ def run(ck, tier, bdir):
     finally:
         shutil.rmtree(root, ignore_errors=True)
     ck.phase("rtattr_replay")
+    # the multi-thread walks once more on the ThreadSanitizer build: no data race inside the library
+    try:
+        tb = core.build("tsan")
+        tdrv = core.cc_driver(tb, "attrdrive.c", emu=False, variant="tsan")
+    except core.MachineryError as ex:
+        tdrv = None
+        ck.notes["rtattr_tsan"] = "tsan build unavailable: %s" % str(ex)[:200]
+    if tdrv:
+        mt = [it for kind, it in items if kind == "simmt"]
+        root = core.mkscratch("rtattr-tsan")
+        try:
+            tres = core.pmap(lambda it: replay(tdrv, root, it, reps=1), mt)
+        finally:
+            shutil.rmtree(root, ignore_errors=True)
+        races = 0
+        for (name, idx, P), r_ in zip(mt, tres):
+            if r_.get("tsan"):
+                races += 1
+                fr = re.findall(r"#\d+ (\w+) ", r_["tsan"])
+                top = [f for f in fr if f.startswith(("ovni_", "json_", "thread_", "parson_")) or f in ("die",)][:3]
+                ck.violation("data race inside the library while threads use the attribute API concurrently: %s\n%s"
+                             % (top, r_["tsan"][:2500]), dict(r_["files"], **{"tsan.txt": r_["tsan"]}),
+                             sig="rtattr:tsan:" + ",".join(top[:2]))
+        ck.notes["rtattr_tsan"] = {"multi_thread_walks": len(mt), "race_reports": races}
+        ck.phase("rtattr_tsan")
 
     agree = 0
     ends = {}
